@@ -15,7 +15,7 @@ LEVEL = "exploration"
 
 
 def make_world(seed, collide):
-    w = world.standard_world(seed, n_chroms=3, genes_per_chrom=4, hidden=True, mono_genes=True)
+    w = world.standard_world(seed, n_chroms=3, genes_per_chrom=4, hidden=True, mono_genes=True, chrom_len=125000)
     # make sure there are hidden isoforms on every chromosome
     # unannotated loci (novel genes): genes whose isoforms are all hidden from the annotation
     rng0 = w.rng
@@ -30,6 +30,13 @@ def make_world(seed, collide):
                 t.annotated = False
             g.transcripts = []
             pos = end + rng0.randint(2000, 3000)
+    # loci with IDENTICAL coordinates, strand and exon structure on every chromosome (annotated and hidden isoforms): an exon is
+    # identified by chromosome AND coordinates
+    common = max(g.end for g in w.genes) + 2500
+    if common + 12000 < min(w.chrom_len(c) for c in w.chrom_order):
+        x, _ = w.make_gene("X1", w.chrom_order[0], common, rng0.choice("+-"), n_exons=5, n_iso=2, hidden_kinds=("nnic_skip",))
+        for ci, chrom in enumerate(w.chrom_order[1:]):
+            world2.clone_gene(w, x, "X%d" % (ci + 2), chrom, x.start)
     world.add_standard_reads(w, per_transcript=6, jitter=2, hidden_cov=7, polya_frac=0.7)
     id_map = {}
     exon_ids = {}
@@ -132,6 +139,10 @@ def check_outputs(chk, o, w, id_map, exon_ids, annotated, wit, desc):
             counts[(r.chr, r.start, r.end, r.strand)] += 1
     seen_twice = sum(1 for v in counts.values() if v >= 2)
     novel_t = [tid for tid in files[0][1].transcripts if tid not in ref_t]
+    by_coord = defaultdict(set)
+    for k in exon_key_to_ids:
+        by_coord[k[1:]].add(k[0])
+    chk.count("exons_with_same_coordinates_on_several_chromosomes", sum(1 for v in by_coord.values() if len(v) > 1))
     return seen_twice, len(novel_t), len(exon_key_to_ids)
 
 
@@ -159,7 +170,7 @@ def run(chk, scratch):
     thorough = chk.tier == "thorough"
     chk.rule = ("CLI runs on 3-chromosome worlds with hidden (novel) isoforms; reference annotations with plain ids and with IsoQuant-style "
                 "transcript/gene/exon ids (numbers below and above what a fresh run allocates, other exon_id styles, exons without exon_id), "
-                "annotation-free runs, threads 1 and 3; every id of both output GTFs judged + get_id call log. "
+                "loci with identical coordinates on all chromosomes, annotation-free runs, threads 1 and 3; every id of both output GTFs judged + get_id call log. "
                 "non-trivial = distinct (run, exon) pairs printed at least twice")
     n_seeds = 10 if thorough else 2
     jobs = []
@@ -210,4 +221,5 @@ def run(chk, scratch):
     chk.assumptions = ["GTF parser in vlib/parse.py", "a reference id printed with non-reference coordinates is taken as a novel/reference id collision"]
     chk.inconclusive_if(total_novel == 0, "no novel transcript was produced")
     chk.inconclusive_if(log_calls == 0, "get_id monitor never fired")
+    chk.inconclusive_if(chk.extra.get("exons_with_same_coordinates_on_several_chromosomes", 0) == 0, "no exon printed with equal coordinates on two chromosomes")
     chk.min_nontrivial = 20
